@@ -69,7 +69,8 @@ def benign(argv):
             shutil.copy(os.path.join(ROOT, f), os.path.join(sverif, f))
         sh(["rsync", "-a", "--exclude", "target", "--exclude", "target-*", os.path.join(ROOT, "harness") + "/", os.path.join(sverif, "harness") + "/"])
         ct = os.path.join(sverif, "harness", "Cargo.toml")
-        open(ct, "w").write(open(ct).read().replace('path = "/repo"', 'path = "%s"' % srepo))
+        txt = open(ct).read().replace('path = "/repo"', 'path = "%s"' % srepo)
+        open(ct, "w").write(txt)
         env = dict(os.environ)
         env["CARGO_NET_OFFLINE"] = "true"
         env.pop("RUSTFLAGS", None)
